@@ -23,7 +23,8 @@ VARIABLES prog, sh, ver, th, gh, ev
 vars == <<prog, sh, ver, th, gh, ev>>
 View == <<prog, sh, ver, th, gh>>
 
-OpName == <<"write_commit", "write_cancel", "write_move_commit", "snap_read", "snap_hold", "try_snap">>
+\* write_move_stale_cancel: the handle is moved, cancel() is called on the moved-from (empty) handle - a no-op - and the new handle commits
+OpName == <<"write_commit", "write_cancel", "write_move_commit", "snap_read", "snap_hold", "try_snap", "write_move_stale_cancel">>
 Threads == 1..Len(prog)
 NoEv == [t |-> 0, k |-> "init", o |-> "", i |-> 0, v |-> 0, w |-> 0]
 E(t, k, o, i, v, w) == [t |-> t, k |-> k, o |-> o, i |-> i, v |-> v, w |-> w]
@@ -56,7 +57,7 @@ Drop(v) == [ver EXCEPT ![v].refs = @ - 1]
 Dies(v) == ver[v].refs = 1
 AfterDrop(t, v, next) == IF Dies(v) THEN [th[t] EXCEPT !.pc = "dtor", !.dying = v, !.after = next] ELSE Pc(t, next)
 
-IsWrite(o) == o \in {0, 1, 2}
+IsWrite(o) == o \in {0, 1, 2, 6}
 Call(t) ==
     /\ th[t].pc = "idle" /\ th[t].opi <= Len(prog[t])
     /\ \E j \in 1..Len(prog[t][th[t].opi]) :
